@@ -27,11 +27,16 @@ Proof.
   intros s x t Hinv Hx Ht A B. apply (inv_lock s Hinv x Hx) in A. apply (inv_lock s Hinv t Ht) in B. congruence.
 Qed.
 
-Lemma f121_not_strong : forall s x i o, Inv s -> x < s_n s -> t_pc (s_thr s x) = F121 ->
-  dget (s_strong s) i = Some o -> t_id (s_thr s x) <> i.
+Lemma deadw_not_strong : forall s x k i o, Inv s -> x < s_n s -> deadw (s_thr s x) = Some k ->
+  dget (s_strong s) i = Some o -> k <> i.
 Proof.
-  intros s x i o Hinv Hx P S E. pose proof (inv_sabs s Hinv x Hx) as A. rewrite P in A.
-  specialize (A eq_refl). congruence.
+  intros s x k i o Hinv Hx D S E. subst k. destruct (inv_deadw s Hinv x i Hx D) as (W & _).
+  apply W. apply (inv_disj s Hinv). congruence.
+Qed.
+
+Lemma absent_key_holds : forall th k, absent_key th = Some k -> holds (t_pc th) = true.
+Proof.
+  intros th k H. unfold absent_key in H. destruct (t_pc th); simpl in *; try discriminate; reflexivity.
 Qed.
 
 (* ---- get, line 105: the unlocked look at the strong dict *)
@@ -48,7 +53,7 @@ Proof.
   - unfold mov_of. now rewrite Hpc.
   - split; [eapply inv_w_strong; eauto |]. right. split; [unfold inflight; now rewrite Hpc |].
     split; [reflexivity |]. split; [now left |].
-    intros x Hx _ P _. eapply f121_not_strong; eauto.
+    intros x k Hx _ D. eapply deadw_not_strong; eauto.
 Qed.
 
 (* ---- get, line 110: the look at the strong dict under the lock *)
@@ -64,7 +69,7 @@ Proof.
   - intros i o1 e [A | A]; [left; now left |]. right. unfold inflight in A. simpl in A.
     destruct (t_exc (s_thr s t)); [discriminate | exact A].
   - intros i0 o0 e0 E. inversion E; subst. split; [reflexivity | now left].
-  - intros i0 o0 e0 E x Hx Hne P _. inversion E; subst. eapply f121_not_strong; eauto.
+  - intros i0 o0 e0 E x k Hx Hne D. inversion E; subst. eapply deadw_not_strong; eauto.
 Qed.
 
 (* ---- get, lines 115 / 126: return val *)
@@ -106,8 +111,10 @@ Proof.
   - intros i o1 e [A | A]; [left; now left |]. right. unfold inflight in A. simpl in A.
     destruct (t_exc (s_thr s t)); [discriminate |]. destruct (deref s o); [exact A | discriminate].
   - intros i0 o0 e0 E. unfold deref in *. destruct (aliveb s o); [| discriminate]. injection E as <- <- <-. split; [reflexivity |]. right. now left.
-  - intros i0 o0 e0 _ x Hx Hne P _. exfalso. apply Hne. apply Hx_t; [assumption | now rewrite P].
-  - simpl. intros _. unfold deref. destruct (aliveb s o) eqn:A; [exact W |].
+  - intros i0 o0 e0 _ x k Hx Hne D. exfalso. apply Hne. apply Hx_t; [assumption | eapply deadw_holds; eauto].
+  - simpl. intros o1 _ V. unfold deref in V. destruct (aliveb s o); [| discriminate]. injection V as <-. exact W.
+  - intros k D. unfold deadw in D. simpl in D. unfold deref in *. destruct (aliveb s o) eqn:A; [discriminate |].
+    injection D as <-. split; [congruence |].
     intros o1. split; [| reflexivity]. intros H.
     pose proof (inv_reg s Hinv _ _ H) as [R | [R | (x & Hx & R)]].
     + congruence.
@@ -115,7 +122,6 @@ Proof.
     + destruct (mov_core s x _ _ Hinv Hx R) as (Hh & _). apply Hx_t in Hh; [| assumption]. subst x.
       unfold mov_of in R. rewrite Hpc in R. discriminate.
 Qed.
-
 
 (* ---- get, line 122: if val is None *)
 Lemma case_F122 : forall s t, Inv s -> t < s_n s -> t_pc (s_thr s t) = F122 ->
@@ -139,9 +145,7 @@ Proof.
   - apply (inv_wabs s Hinv t Ht). now rewrite Hpc.
   - now apply Rv.
   - apply (inv_valkey s Hinv t o Ht); [now rewrite Hpc | assumption].
-  - intros x Hx Hne S E.
-    assert (Hh : holds (t_pc (s_thr s x)) = true) by (destruct (t_pc (s_thr s x)); simpl in S; try discriminate; reflexivity).
-    apply Hne. eapply two_holders; eauto. now rewrite Hpc.
+  - intros x k Hx Hne A E. apply Hne. eapply two_holders; eauto; [eapply absent_key_holds; eauto | now rewrite Hpc].
   - right. unfold mov_of. now rewrite Hpc, V.
 Qed.
 
@@ -164,7 +168,7 @@ Proof.
   - apply (inv_wabs s Hinv t Ht). now rewrite Hpc.
   - now apply Rv.
   - apply (inv_valkey s Hinv t o Ht); [now rewrite Hpc | assumption].
-  - intros x Hx Hne S E. apply Hne. eapply two_holders; eauto; [now apply sabs_holds | now rewrite Hpc].
+  - intros x k Hx Hne A E. apply Hne. eapply two_holders; eauto; [eapply absent_key_holds; eauto | now rewrite Hpc].
   - left. unfold mov_of. now rewrite Hpc.
   - unfold ref_ok. simpl. intros x E. injection E as <-. now apply Rv.
   - simpl. intros o1 _ E. injection E as <-. apply (inv_valkey s Hinv t o Ht); [now rewrite Hpc | assumption].
@@ -193,8 +197,8 @@ Proof.
     try assumption; thr_obl s t Hinv Ht Hpc.
   - now apply Rs.
   - apply (inv_selfkey s Hinv t o Ht); [now rewrite Hpc | assumption].
-  - intros x Hx Hne S E. specialize (G x). rewrite in_seq in G. specialize (G ltac:(lia)).
-    rewrite S, E, Z.eqb_refl in G. simpl in G. rewrite !orb_false_r in G. apply Nat.eqb_eq in G. contradiction.
+  - intros x k Hx Hne A E. specialize (G x). rewrite in_seq in G. specialize (G ltac:(lia)).
+    rewrite A, E, Z.eqb_refl in G. simpl in G. rewrite !orb_false_r in G. apply Nat.eqb_eq in G. contradiction.
   - left. unfold mov_of. now rewrite Hpc.
   - simpl. intros o1 i1 e1 H. apply in_app_or in H. destruct H as [H | [H | []]]; [eapply Rl; eauto |].
     injection H as <- _ _. now apply Rs.
@@ -230,6 +234,7 @@ Proof.
   - unfold ref_ok. simpl. intros x E. injection E as <-. lia.
   - unfold ref_ok in *. simpl. intros x E. specialize (Rs x E). lia.
   - simpl. intros o i e H. specialize (Rl o i e H). lia.
+  - pose proof (inv_w_cobj s Hinv t Ht) as Rc. unfold ref_ok in *. simpl. intros x E. specialize (Rc x E). lia.
   - simpl. intros o _ E. injection E as <-. now rewrite upd_same.
   - intros i o e [A | A]; [left; now left |]. unfold inflight in A. simpl in A. discriminate.
 Qed.
@@ -285,6 +290,7 @@ Proof.
   - unfold ref_ok in *. simpl. intros x E. specialize (Rv x E). lia.
   - unfold ref_ok. simpl. intros x E. injection E as <-. lia.
   - simpl. intros o i e H. specialize (Rl o i e H). lia.
+  - pose proof (inv_w_cobj s Hinv t Ht) as Rc. unfold ref_ok in *. simpl. intros x E. specialize (Rc x E). lia.
   - simpl. intros o _ E. injection E as <-. now rewrite upd_same.
   - intros i o e [A | A]; [left; now left |]. unfold inflight in A. simpl in A. discriminate.
 Qed.
@@ -418,6 +424,309 @@ Proof.
 Qed.
 
 
+
+(* ------------------------------------------------------------------ cull *)
+Lemma Inv_with_co : forall s c, Inv s -> Inv (with_co s c).
+Proof. intros s c H. destruct H. constructor; assumption. Qed.
+
+Lemma cull_of : forall s t, Inv s -> t < s_n s -> cull_ok (s_strong s) (s_weak s) (s_heap s) (s_thr s t).
+Proof. intros. now apply inv_cull. Qed.
+
+(* get line 100 / created line 178: self.cull() *)
+Lemma case_enter_cull : forall s t r, Inv s -> t < s_n s ->
+  ((t_pc (s_thr s t) = F100 /\ r = RetGet) \/ (t_pc (s_thr s t) = K178 /\ r = RetCreated)) ->
+  Inv (put_thr s t (set_pc (set_cret (s_thr s t) r) U192)).
+Proof.
+  intros s t r Hinv Ht Hc.
+  destruct Hc as [(Hpc & ->) | (Hpc & ->)];
+    (eapply inv_thr_step with (s := s) (t := t) (new := None); try reflexivity; thr_obl s t Hinv Ht Hpc).
+  - split; [| split; [| split; [| split]]]; simpl; discriminate.
+  - intros i o e [A | A]; [left; now left |]. unfold inflight in A. simpl in A. discriminate.
+  - split; [| split; [| split; [| split]]]; simpl; try discriminate.
+    intros _ _.
+    assert (Sd : t_self (s_thr s t) <> None) by (apply (inv_selfdef s Hinv t Ht); now rewrite Hpc).
+    destruct (t_self (s_thr s t)) as [o |] eqn:So; [| congruence]. exists o. split; [reflexivity |].
+    apply (inv_selfkey s Hinv t o Ht); [now rewrite Hpc | assumption].
+  - intros i o e [A | A]; [left; now left |]. unfold inflight in A. simpl in A. discriminate.
+Qed.
+
+
+Lemma cull_parts : forall s t, Inv s -> t < s_n s ->
+  (kabs (t_pc (s_thr s t)) = true ->
+     dget (s_strong s) (t_key (s_thr s t)) = None /\ dget (s_weak s) (t_key (s_thr s t)) = None) /\
+  (cobjdef (t_pc (s_thr s t)) = true ->
+     exists o, t_cobj (s_thr s t) = Some o /\ o_key (s_heap s o) = t_key (s_thr s t) /\
+               (t_pc (s_thr s t) = U205 -> dget (s_strong s) (t_key (s_thr s t)) = Some o)) /\
+  (wkeys (t_pc (s_thr s t)) = true ->
+     NoDup (t_keys (s_thr s t)) /\ (forall k, In k (t_keys (s_thr s t)) -> dget (s_weak s) k <> None) /\
+     (wcur (t_pc (s_thr s t)) = true ->
+        dget (s_weak s) (t_key (s_thr s t)) <> None /\ ~ In (t_key (s_thr s t)) (t_keys (s_thr s t)))) /\
+  (skeys (t_pc (s_thr s t)) = true ->
+     NoDup (t_keys (s_thr s t)) /\ (forall k, In k (t_keys (s_thr s t)) -> dget (s_strong s) k <> None) /\
+     (scur (t_pc (s_thr s t)) = true -> dget (s_strong s) (t_key (s_thr s t)) <> None) /\
+     (skeyout (t_pc (s_thr s t)) = true -> ~ In (t_key (s_thr s t)) (t_keys (s_thr s t)))) /\
+  (cullpc (t_pc (s_thr s t)) = true -> t_cret (s_thr s t) = RetCreated ->
+     exists o, t_self (s_thr s t) = Some o /\ o_key (s_heap s o) = t_id (s_thr s t)).
+Proof. intros s t Hinv Ht. exact (inv_cull s Hinv t Ht). Qed.
+
+Ltac cull_self E := intros _ Y; simpl in Y; destruct (E eq_refl Y) as (o' & E1 & E2); exists o'; auto.
+
+(* line 195: keys = list(self.expiredCache.keys()) *)
+Lemma case_U195 : forall s t, Inv s -> t < s_n s -> t_pc (s_thr s t) = U195 ->
+  Inv (put_thr s t (set_pc (set_keys (s_thr s t) (dkeys (s_weak s))) U196)).
+Proof.
+  intros s t Hinv Ht Hpc. destruct (cull_parts s t Hinv Ht) as (_ & _ & _ & _ & E). rewrite Hpc in E.
+  eapply inv_thr_step with (s := s) (t := t) (new := None); try reflexivity; thr_obl s t Hinv Ht Hpc.
+  - split; [| split; [| split; [| split]]]; simpl; try discriminate.
+    + intros _. split; [apply (inv_nodup_weak s Hinv) | split; [| discriminate]].
+      intros k Hk. now apply dkeys_present.
+    + cull_self E.
+  - intros i o e [A | A]; [left; now left |]. unfold inflight in A. simpl in A. discriminate.
+Qed.
+
+(* line 196: for key in keys *)
+Lemma case_U196_next : forall s t k r, Inv s -> t < s_n s -> t_pc (s_thr s t) = U196 ->
+  t_keys (s_thr s t) = k :: r ->
+  Inv (put_thr s t (set_pc (set_key (set_keys (s_thr s t) r) k) U197)).
+Proof.
+  intros s t k r Hinv Ht Hpc Hk. destruct (cull_parts s t Hinv Ht) as (_ & _ & C & _ & E). rewrite Hpc in C, E.
+  destruct (C eq_refl) as (C1 & C2 & _). rewrite Hk in C1, C2. inversion C1; subst.
+  eapply inv_thr_step with (s := s) (t := t) (new := None); try reflexivity; thr_obl s t Hinv Ht Hpc.
+  - split; [| split; [| split; [| split]]]; simpl; try discriminate.
+    + intros _. split; [assumption | split].
+      * intros k' Hk'. apply C2. now right.
+      * intros _. split; [apply C2; now left | assumption].
+    + cull_self E.
+  - intros i o e [A | A]; [left; now left |]. unfold inflight in A. simpl in A. discriminate.
+Qed.
+
+
+(* line 197: if self.expiredCache[key]() is None *)
+Lemma case_U197_alive : forall s t, Inv s -> t < s_n s -> t_pc (s_thr s t) = U197 ->
+  Inv (put_thr s t (set_pc (s_thr s t) U196)).
+Proof.
+  intros s t Hinv Ht Hpc. apply inv_goto; try assumption; goto_side s Hinv t Ht Hpc.
+Qed.
+
+Lemma case_U197_dead : forall s t o, Inv s -> t < s_n s -> t_pc (s_thr s t) = U197 ->
+  dget (s_weak s) (t_key (s_thr s t)) = Some o -> aliveb s o = false ->
+  Inv (put_thr s t (set_pc (s_thr s t) U198)).
+Proof.
+  intros s t o Hinv Ht Hpc W A.
+  assert (Hx_t : forall x, x < s_n s -> holds (t_pc (s_thr s x)) = true -> x = t).
+  { intros x Hx Hh. eapply two_holders; eauto. now rewrite Hpc. }
+  eapply inv_thr_step with (s := s) (t := t) (new := None); try reflexivity; thr_obl s t Hinv Ht Hpc.
+  - apply cull_ok_goto; [exact (inv_cull s Hinv t Ht) | rewrite ?Hpc; simpl; intuition congruence ..].
+  - intros k D. unfold deadw in D. simpl in D. injection D as <-. split; [congruence |].
+    intros o1. split; [| reflexivity]. intros H.
+    pose proof (inv_reg s Hinv _ _ H) as [R | [R | (x & Hx & R)]].
+    + assert (dget (s_weak s) (t_key (s_thr s t)) = None) by (apply (inv_disj s Hinv); congruence). congruence.
+    + assert (o1 = o) by congruence. subst. apply holder_alive in H. congruence.
+    + destruct (mov_core s x _ _ Hinv Hx R) as (Hh & _). apply Hx_t in Hh; [| assumption]. subst x.
+      unfold mov_of in R. rewrite Hpc in R. discriminate.
+Qed.
+
+
+Ltac locked_common s t Hinv Ht Hpc :=
+  lazymatch goal with
+  | |- Inv _ => exact Hinv
+  | |- _ < s_n _ => exact Ht
+  | |- holds _ = true => rewrite ?Hpc; reflexivity
+  | |- ref_ok _ (t_val _) => unfold ref_ok; simpl; exact (proj1 (inv_w_thr s Hinv t Ht))
+  | |- ref_ok _ (t_self _) => unfold ref_ok; simpl; exact (proj1 (proj2 (inv_w_thr s Hinv t Ht)))
+  | |- forall o i e, In (RObj o i e) _ -> _ => simpl; exact (proj2 (proj2 (inv_w_thr s Hinv t Ht)))
+  | |- forall o, o < _ -> (wl _ o <-> wl _ o) => intros ? _; unfold wl; simpl; rewrite ?Hpc; simpl; tauto
+  | |- t_exc _ = None => simpl; apply exc_none; try assumption; rewrite Hpc; discriminate
+  | |- t_mex _ = false => simpl; exact (proj2 (inv_scope s Hinv t Ht))
+  | |- t_pc _ <> F121 => simpl; discriminate
+  | |- _ => try reflexivity
+  end.
+
+(* line 198: self.expiredCache.pop(key, None) -- a dead reference *)
+Lemma case_U198 : forall s t, Inv s -> t < s_n s -> t_pc (s_thr s t) = U198 ->
+  Inv (put_thr (with_weak s (ddel (s_weak s) (t_key (s_thr s t)))) t (set_pc (s_thr s t) U196)).
+Proof.
+  intros s t Hinv Ht Hpc.
+  destruct (cull_parts s t Hinv Ht) as (_ & _ & C & _ & E). rewrite Hpc in C, E.
+  destruct (C eq_refl) as (C1 & C2 & C3). destruct (C3 eq_refl) as (C4 & C5).
+  assert (D : deadw (s_thr s t) = Some (t_key (s_thr s t))) by (unfold deadw; now rewrite Hpc).
+  destruct (inv_deadw s Hinv t _ Ht D) as (_ & Q).
+  assert (Nw : NoDup (dkeys (s_weak s))) by apply (inv_nodup_weak s Hinv).
+  eapply inv_locked_dict with (s := s) (t := t); try reflexivity; locked_common s t Hinv Ht Hpc.
+  - simpl. apply (inv_w_strong s Hinv).
+  - simpl. intros k o H. eapply inv_w_weak; eauto. eapply dget_ddel_some; eauto.
+  - simpl. apply (inv_key_strong s Hinv).
+  - simpl. intros k o H. eapply inv_key_weak; eauto. eapply dget_ddel_some; eauto.
+  - simpl. apply (inv_nodup_strong s Hinv).
+  - simpl. now apply nodup_ddel.
+  - simpl. intros k H. apply dget_ddel_none. now apply (inv_disj s Hinv).
+  - intros i o Hh [A | [A | (x & Hx & A)]].
+    + left. exact A.
+    + destruct (Z.eq_dec i (t_key (s_thr s t))) as [-> | Hne]; [exfalso; exact (Q o Hh) |].
+      right. left. simpl. now rewrite dget_ddel_other.
+    + destruct (Nat.eq_dec x t) as [-> | Hne]; [unfold mov_of in A; rewrite Hpc in A; discriminate |].
+      right. right. exists x. split; [assumption |]. simpl. now rewrite upd_other.
+  - unfold ref_ok. simpl. exact (inv_w_cobj s Hinv t Ht).
+  - simpl. split; [| split; [| split; [| split]]]; simpl; try discriminate.
+    + intros _. split; [assumption | split; [| discriminate]].
+      intros k Hk. rewrite dget_ddel_other; [now apply C2 |]. intros ->. contradiction.
+    + cull_self E.
+Qed.
+
+(* line 200: keys = list(self.cache.keys()); the range of line 201 selects every cullFraction-th *)
+Lemma case_U200 : forall s t, Inv s -> t < s_n s -> t_pc (s_thr s t) = U200 ->
+  Inv (put_thr s t (set_pc (set_keys (s_thr s t) (select_from (dkeys (s_strong s)) (s_co s) (s_frac s))) U201)).
+Proof.
+  intros s t Hinv Ht Hpc. destruct (cull_parts s t Hinv Ht) as (_ & _ & _ & _ & E). rewrite Hpc in E.
+  eapply inv_thr_step with (s := s) (t := t) (new := None); try reflexivity; thr_obl s t Hinv Ht Hpc.
+  - split; [| split; [| split; [| split]]]; simpl; try discriminate.
+    + intros _. split; [apply select_from_nodup; apply (inv_nodup_strong s Hinv) | split; [| split; discriminate]].
+      intros k Hk. apply dkeys_present. eapply select_from_incl; eauto.
+    + cull_self E.
+  - intros i o e [A | A]; [left; now left |]. unfold inflight in A. simpl in A. discriminate.
+Qed.
+
+(* line 201: for i in range(...) / line 202: id = keys[i] *)
+Lemma case_U201_next : forall s t k r, Inv s -> t < s_n s -> t_pc (s_thr s t) = U201 ->
+  t_keys (s_thr s t) = k :: r ->
+  Inv (put_thr s t (set_pc (set_key (set_keys (s_thr s t) r) k) U202)).
+Proof.
+  intros s t k r Hinv Ht Hpc Hk. destruct (cull_parts s t Hinv Ht) as (_ & _ & _ & D & E). rewrite Hpc in D, E.
+  destruct (D eq_refl) as (D1 & D2 & _). rewrite Hk in D1, D2. inversion D1; subst.
+  eapply inv_thr_step with (s := s) (t := t) (new := None); try reflexivity; thr_obl s t Hinv Ht Hpc.
+  - split; [| split; [| split; [| split]]]; simpl; try discriminate.
+    + intros _. split; [assumption | split; [| split]].
+      * intros k' Hk'. apply D2. now right.
+      * intros _. apply D2. now left.
+      * intros _. assumption.
+    + cull_self E.
+  - intros i o e [A | A]; [left; now left |]. unfold inflight in A. simpl in A. discriminate.
+Qed.
+
+(* line 204: obj = ref(self.cache[id]) *)
+Lemma case_U204 : forall s t o, Inv s -> t < s_n s -> t_pc (s_thr s t) = U204 ->
+  dget (s_strong s) (t_key (s_thr s t)) = Some o ->
+  Inv (put_thr s t (set_pc (set_cobj (s_thr s t) (Some o)) U205)).
+Proof.
+  intros s t o Hinv Ht Hpc S. destruct (cull_parts s t Hinv Ht) as (_ & _ & _ & D & E). rewrite Hpc in D, E.
+  destruct (D eq_refl) as (D1 & D2 & D3 & D4).
+  eapply inv_thr_step with (s := s) (t := t) (new := None); try reflexivity; thr_obl s t Hinv Ht Hpc.
+  - unfold ref_ok. simpl. intros x X. injection X as <-. eapply inv_w_strong; eauto.
+  - split; [| split; [| split; [| split]]]; simpl; try discriminate.
+    + intros _. exists o. repeat split; [eapply inv_key_strong; eauto | auto].
+    + intros _. split; [assumption | split; [assumption | split; [intros _; congruence | intros _; now apply D4]]].
+    + cull_self E.
+  - intros i o1 e [A | A]; [left; now left |]. unfold inflight in A. simpl in A. discriminate.
+Qed.
+
+
+(* line 205: del self.cache[id] -- from here to line 210 the object is in neither dict *)
+Lemma case_U205 : forall s t, Inv s -> t < s_n s -> t_pc (s_thr s t) = U205 ->
+  Inv (put_thr (with_strong s (ddel (s_strong s) (t_key (s_thr s t)))) t (set_pc (s_thr s t) U209)).
+Proof.
+  intros s t Hinv Ht Hpc.
+  destruct (cull_parts s t Hinv Ht) as (_ & B & _ & D & E). rewrite Hpc in B, D, E.
+  destruct (B eq_refl) as (o & B1 & B2 & B3). specialize (B3 eq_refl).
+  destruct (D eq_refl) as (D1 & D2 & _ & D4). specialize (D4 eq_refl).
+  assert (Ns : NoDup (dkeys (s_strong s))) by apply (inv_nodup_strong s Hinv).
+  assert (Wn : dget (s_weak s) (t_key (s_thr s t)) = None) by (apply (inv_disj s Hinv); congruence).
+  eapply inv_locked_dict with (s := s) (t := t); try reflexivity; locked_common s t Hinv Ht Hpc.
+  - simpl. intros k o1 H. eapply inv_w_strong; eauto. eapply dget_ddel_some; eauto.
+  - simpl. apply (inv_w_weak s Hinv).
+  - simpl. intros k o1 H. eapply inv_key_strong; eauto. eapply dget_ddel_some; eauto.
+  - simpl. apply (inv_key_weak s Hinv).
+  - simpl. now apply nodup_ddel.
+  - simpl. apply (inv_nodup_weak s Hinv).
+  - simpl. intros k H. apply (inv_disj s Hinv). intros X. apply H. now apply dget_ddel_none.
+  - intros i o1 Hh [A | [A | (x & Hx & A)]].
+    + destruct (Z.eq_dec i (t_key (s_thr s t))) as [-> | Hne].
+      * assert (o1 = o) by congruence. subst o1. right. right. exists t. split; [assumption |].
+        simpl. rewrite upd_same. unfold mov_of. simpl. now rewrite B1.
+      * left. simpl. now rewrite dget_ddel_other.
+    + right. left. exact A.
+    + destruct (Nat.eq_dec x t) as [-> | Hne]; [unfold mov_of in A; rewrite Hpc in A; discriminate |].
+      right. right. exists x. split; [assumption |]. simpl. now rewrite upd_other.
+  - unfold ref_ok. simpl. exact (inv_w_cobj s Hinv t Ht).
+  - simpl. split; [| split; [| split; [| split]]]; simpl; try discriminate.
+    + intros _. split; [now apply dget_ddel_same | assumption].
+    + intros _. exists o. repeat split; try assumption. discriminate.
+    + intros _. split; [assumption | split; [| split; [discriminate | intros _; assumption]]].
+      intros k Hk. rewrite dget_ddel_other; [now apply D2 |]. intros ->. contradiction.
+    + cull_self E.
+Qed.
+
+(* line 209: if obj() is not None *)
+Lemma case_U209_alive : forall s t, Inv s -> t < s_n s -> t_pc (s_thr s t) = U209 ->
+  Inv (put_thr s t (set_pc (s_thr s t) U210)).
+Proof.
+  intros s t Hinv Ht Hpc. apply inv_goto; try assumption; goto_side s Hinv t Ht Hpc.
+Qed.
+
+Lemma case_U209_dead : forall s t o, Inv s -> t < s_n s -> t_pc (s_thr s t) = U209 ->
+  t_cobj (s_thr s t) = Some o -> aliveb s o = false ->
+  Inv (put_thr s t (set_pc (s_thr s t) U201)).
+Proof.
+  intros s t o Hinv Ht Hpc Co A.
+  eapply inv_thr_step with (s := s) (t := t) (new := None); try reflexivity; thr_obl s t Hinv Ht Hpc.
+  - apply cull_ok_goto; [exact (inv_cull s Hinv t Ht) | rewrite ?Hpc; simpl; intuition congruence ..].
+  - right. split; [unfold mov_of; reflexivity | split; [reflexivity |]].
+    intros i o1 M H. unfold mov_of in M. rewrite Hpc, Co in M. injection M as <- <-.
+    apply holder_alive in H. congruence.
+Qed.
+
+(* line 210: self.expiredCache[id] = obj *)
+Lemma case_U210 : forall s t o, Inv s -> t < s_n s -> t_pc (s_thr s t) = U210 ->
+  t_cobj (s_thr s t) = Some o ->
+  Inv (put_thr (with_weak s (dset (s_weak s) (t_key (s_thr s t)) o)) t (set_pc (s_thr s t) U201)).
+Proof.
+  intros s t o Hinv Ht Hpc Co.
+  destruct (cull_parts s t Hinv Ht) as (A & B & _ & D & E). rewrite Hpc in A, B, D, E.
+  destruct (A eq_refl) as (A1 & A2).
+  destruct (B eq_refl) as (o' & B1 & B2 & _). assert (o' = o) by congruence. subst o'.
+  destruct (D eq_refl) as (D1 & D2 & _ & _).
+  assert (Ho : o < s_nextobj s) by (apply (inv_w_cobj s Hinv t Ht); assumption).
+  eapply inv_locked_dict with (s := s) (t := t); try reflexivity; locked_common s t Hinv Ht Hpc.
+  - simpl. apply (inv_w_strong s Hinv).
+  - simpl. intros k o1 H. destruct (Z.eq_dec k (t_key (s_thr s t))) as [-> | Hne].
+    + rewrite dget_dset_same in H. injection H as <-. assumption.
+    + rewrite dget_dset_other in H by assumption. eapply inv_w_weak; eauto.
+  - simpl. apply (inv_key_strong s Hinv).
+  - simpl. intros k o1 H. destruct (Z.eq_dec k (t_key (s_thr s t))) as [-> | Hne].
+    + rewrite dget_dset_same in H. injection H as <-. assumption.
+    + rewrite dget_dset_other in H by assumption. eapply inv_key_weak; eauto.
+  - simpl. apply (inv_nodup_strong s Hinv).
+  - simpl. apply nodup_dset. apply (inv_nodup_weak s Hinv).
+  - simpl. intros k H. destruct (Z.eq_dec k (t_key (s_thr s t))) as [-> | Hne]; [congruence |].
+    rewrite dget_dset_other by assumption. now apply (inv_disj s Hinv).
+  - intros i o1 Hh [X | [X | (x & Hx & X)]].
+    + left. exact X.
+    + right. left. simpl. rewrite dget_dset_other; [assumption | congruence].
+    + destruct (Nat.eq_dec x t) as [-> | Hne].
+      * unfold mov_of in X. rewrite Hpc, Co in X. injection X as <- <-.
+        right. left. simpl. apply dget_dset_same.
+      * right. right. exists x. split; [assumption |]. simpl. now rewrite upd_other.
+  - unfold ref_ok. simpl. exact (inv_w_cobj s Hinv t Ht).
+  - simpl. split; [| split; [| split; [| split]]]; simpl; try discriminate.
+    + intros _. split; [assumption | split; [assumption | split; discriminate]].
+    + cull_self E.
+Qed.
+
+(* line 216: release; cull returns into get (line 104) or created (line 181) *)
+Lemma case_U216 : forall s t, Inv s -> t < s_n s -> t_pc (s_thr s t) = U216 ->
+  Inv (put_thr (with_lock s None) t
+         (set_pc (set_cobj (s_thr s t) None) (match t_cret (s_thr s t) with RetGet => F104 | RetCreated => K181 end))).
+Proof.
+  intros s t Hinv Ht Hpc. destruct (cull_parts s t Hinv Ht) as (_ & _ & _ & _ & E). rewrite Hpc in E.
+  destruct (t_cret (s_thr s t)) eqn:R;
+    (eapply inv_thr_step with (s := s) (t := t) (new := None); try reflexivity; thr_obl s t Hinv Ht Hpc).
+  - apply lc_release; [now rewrite Hpc | reflexivity | reflexivity].
+  - intros i o e [A | A]; [left; now left |]. unfold inflight in A. simpl in A. discriminate.
+  - apply lc_release; [now rewrite Hpc | reflexivity | reflexivity].
+  - simpl. intros o _ So. destruct (E eq_refl eq_refl) as (o' & E1 & E2). congruence.
+  - simpl. intros _. destruct (E eq_refl eq_refl) as (o' & E1 & E2). congruence.
+  - intros i o e [A | A]; [left; now left |]. unfold inflight in A. simpl in A. discriminate.
+Qed.
+
 (* ---- an operation begins *)
 Lemma case_start_get : forall s t i, Inv s -> t < s_n s -> t_pc (s_thr s t) = Idle ->
   Inv (put_thr s t (set_pc (set_id (s_thr s t) i) SG301)).
@@ -462,6 +771,14 @@ Proof.
 Qed.
 
 (* ------------------------------------------------------------------ the step lemma *)
+Lemma case_co : forall s t c p', Inv s -> t < s_n s ->
+  (forall s1, Inv s1 -> s_thr s1 = s_thr s -> s_n s1 = s_n s -> s_strong s1 = s_strong s -> s_weak s1 = s_weak s ->
+     Inv (put_thr s1 t (set_pc (s_thr s1 t) p'))) ->
+  Inv (put_thr (with_co s c) t (set_pc (s_thr s t) p')).
+Proof.
+  intros s t c p' Hinv Ht H. apply (H (with_co s c)); try reflexivity. now apply Inv_with_co.
+Qed.
+
 Lemma step_inv : forall s t s', Inv s -> guard s t = true -> step s t = Some s' -> Inv s'.
 Proof.
   intros s t s' Hinv Hg Hstep. unfold step in Hstep.
@@ -474,9 +791,9 @@ Proof.
   (* conditional gotos *)
   all: try (match type of Hstep with goto _ _ _ (if ?c then _ else _) = _ => destruct c eqn:Hc end;
             try discriminate Hg; do_goto s Hinv t Hlt Hpc Hstep; fail).
-  (* gotos after a change of the present flag / the cull counter *)
+  (* gotos after a change of the present flag / the cull counter / the cull offset *)
   all: try (unfold goto in Hstep; inversion Hstep; subst; clear Hstep;
-            first [apply case_cc | apply case_present]; try assumption;
+            first [apply case_cc | apply case_present | apply case_co]; try assumption;
             intros s1 Hinv1 E1 E2 E3 E4; rewrite <- E1 in Hpc; rewrite <- E2 in Hlt;
             apply inv_goto; try assumption; goto_side s1 Hinv1 t Hlt Hpc; fail).
   (* ---- the cache lock *)
@@ -486,76 +803,114 @@ Proof.
             apply inv_goto_lock; try assumption;
             [apply lc_acquire; [exact L | reflexivity | reflexivity] | goto_side s Hinv t Hlt Hpc ..]; fail).
   all: try (match type of Hstep with release _ _ _ (set_pc _ _) = _ => idtac end;
+            lazymatch type of Hpc with _ = U216 => fail | _ => idtac end;
             unfold release in Hstep;
             assert (L : s_lock s = Some t) by (apply (inv_lock s Hinv t Hlt); rewrite Hpc; reflexivity);
             rewrite L in Hstep; inversion Hstep; subst; clear Hstep;
             apply inv_goto_lock; try assumption;
             [apply lc_release; [rewrite Hpc; reflexivity | reflexivity | reflexivity] | goto_side s Hinv t Hlt Hpc ..]; fail).
-  - (* Idle *)
-    destruct (t_prog (s_thr s t)) as [| o r] eqn:Hprog; [discriminate |].
-    destruct o as [i | | t' k | | | t' k]; simpl in Hstep; try discriminate Hg.
-    + unfold goto in Hstep. inversion Hstep; subst. now apply case_start_get.
-    + do_goto s Hinv t Hlt Hpc Hstep.
-    + apply Nat.ltb_lt in Hg.
+  all: lazymatch type of Hpc with
+  | _ = Idle =>
+    destruct (t_prog (s_thr s t)) as [| o r] eqn:Hprog; [discriminate |];
+    destruct o as [i | | t' k | | | t' k]; simpl in Hstep; try discriminate Hg;
+    [ unfold goto in Hstep; inversion Hstep; subst; now apply case_start_get
+    | do_goto s Hinv t Hlt Hpc Hstep
+    | apply Nat.ltb_lt in Hg;
       destruct (nth k (t_slots (s_thr s t')) RNone) as [o i e | | |] eqn:Hs;
-        try (inversion Hstep; subst; now apply case_X1070_expired_idle).
-      unfold goto in Hstep. inversion Hstep; subst. apply case_start_expire; try assumption.
-      destruct (inv_w_thr s Hinv t' Hg) as (_ & _ & Rl). apply (Rl o i e).
-      rewrite <- Hs. apply nth_In. destruct (Nat.lt_ge_cases k (length (t_slots (s_thr s t')))); [assumption |].
-      rewrite nth_overflow in Hs by assumption. discriminate.
-    + apply Nat.eqb_eq in Hg. subst t'. rewrite Nat.eqb_refl in Hstep.
+        try (inversion Hstep; subst; now apply case_X1070_expired_idle);
+      unfold goto in Hstep; inversion Hstep; subst; apply case_start_expire; try assumption;
+      destruct (inv_w_thr s Hinv t' Hg) as (_ & _ & Rl); apply (Rl o i e);
+      rewrite <- Hs; apply nth_In; destruct (Nat.lt_ge_cases k (length (t_slots (s_thr s t')))); [assumption |];
+      rewrite nth_overflow in Hs by assumption; discriminate
+    | apply Nat.eqb_eq in Hg; subst t'; rewrite Nat.eqb_refl in Hstep;
       destruct (nth k (t_slots (s_thr s t)) RNone); inversion Hstep; subst;
-        first [now apply case_drop_own | now apply case_X1070_expired_idle].
-  - (* F105 *)
-    destruct (dget (s_strong s) (t_id (s_thr s t))) eqn:S.
-    + inversion Hstep; subst. now apply case_F105_hit.
-    + do_goto s Hinv t Hlt Hpc Hstep.
-  - (* F110 *)
-    destruct (dget (s_strong s) (t_id (s_thr s t))) eqn:S.
-    + unfold goto in Hstep. inversion Hstep; subst. now apply case_F110_hit.
-    + do_goto s Hinv t Hlt Hpc Hstep. right. exact S.
-  - (* F115 *) inversion Hstep; subst. apply case_return_val; auto.
-  - (* F117 *)
-    destruct (dget (s_weak s) (t_id (s_thr s t))) eqn:W.
-    + unfold goto in Hstep. inversion Hstep; subst. now apply case_F117_some.
-    + do_goto s Hinv t Hlt Hpc Hstep. right. exact W.
-  - (* F121 *) unfold goto in Hstep. inversion Hstep; subst. now apply case_F121.
-  - (* F122 *) unfold goto in Hstep. inversion Hstep; subst. now apply case_F122.
-  - (* F124 *)
-    destruct (t_val (s_thr s t)) eqn:V.
-    + unfold goto in Hstep. inversion Hstep; subst. now apply case_F124.
-    + exfalso. apply (inv_valdef s Hinv t Hlt); [now rewrite Hpc | exact V].
-  - (* F126 *) inversion Hstep; subst. apply case_return_val; auto.
-  - (* M951 *)
-    destruct (existsb (Z.eqb (t_id (s_thr s t))) (s_rows s)); unfold goto in Hstep; inversion Hstep; subst.
-    + now apply case_M951_found.
-    + now apply case_M951_notfound.
-  - (* P153 *)
-    destruct (t_val (s_thr s t)) eqn:V.
-    + unfold goto in Hstep. inversion Hstep; subst. now apply case_P153.
-    + exfalso. apply (inv_valdef s Hinv t Hlt); [now rewrite Hpc | exact V].
-  - (* Q162 *)
-    unfold release in Hstep.
-    assert (L : s_lock s = Some t) by (apply (inv_lock s Hinv t Hlt); rewrite Hpc; reflexivity).
-    rewrite L in Hstep. inversion Hstep; subst. now apply case_Q162.
-  - (* C1397 *) unfold goto in Hstep. inversion Hstep; subst. now apply case_C1397.
-  - (* K181 *) inversion Hstep; subst. apply case_K181; try assumption. now apply negb_true_iff.
-  - (* X1070 *)
-    destruct (o_expired (s_heap s (self_of (s_thr s t)))).
-    + unfold expire_return in Hstep. rewrite Hmex in Hstep. inversion Hstep; subst. now apply case_X1070_expired.
-    + do_goto s Hinv t Hlt Hpc Hstep.
-  - (* X1072 *)
-    destruct (o_wlock (s_heap s (self_of (s_thr s t)))) eqn:W; [discriminate |].
-    unfold goto in Hstep. inversion Hstep; subst. now apply case_X1072.
-  - (* X1078 *) unfold goto in Hstep. inversion Hstep; subst. now apply case_X1078.
-  - (* X1079 *) unfold goto in Hstep. inversion Hstep; subst. now apply case_X1079.
-  - (* E237 *) unfold goto in Hstep. inversion Hstep; subst. now apply case_E237.
-  - (* E239 *) unfold goto in Hstep. inversion Hstep; subst. now apply case_E239.
-  - (* X1083 *)
-    destruct (self_some s t X1083 Hinv Hlt Hpc eq_refl) as (o0 & So & Eo & Ho).
-    assert (W : o_wlock (s_heap s o0) = Some t).
-    { apply (inv_wlock s Hinv t o0 Hlt Ho). rewrite Hpc. auto. }
-    rewrite Eo in Hstep. rewrite W in Hstep. unfold expire_return in Hstep. rewrite Hmex in Hstep.
-    inversion Hstep; subst. now apply case_X1083.
+        first [now apply case_drop_own | now apply case_X1070_expired_idle] ]
+  | _ = F100 => unfold goto in Hstep; inversion Hstep; subst; apply case_enter_cull; auto
+  | _ = K178 => unfold goto in Hstep; inversion Hstep; subst; apply case_enter_cull; auto
+  | _ = F105 =>
+    destruct (dget (s_strong s) (t_id (s_thr s t))) eqn:S;
+    [ inversion Hstep; subst; now apply case_F105_hit | do_goto s Hinv t Hlt Hpc Hstep ]
+  | _ = F110 =>
+    destruct (dget (s_strong s) (t_id (s_thr s t))) eqn:S;
+    [ unfold goto in Hstep; inversion Hstep; subst; now apply case_F110_hit
+    | do_goto s Hinv t Hlt Hpc Hstep; right; exact S ]
+  | _ = F115 => inversion Hstep; subst; apply case_return_val; auto
+  | _ = F126 => inversion Hstep; subst; apply case_return_val; auto
+  | _ = F117 =>
+    destruct (dget (s_weak s) (t_id (s_thr s t))) eqn:W;
+    [ unfold goto in Hstep; inversion Hstep; subst; now apply case_F117_some
+    | do_goto s Hinv t Hlt Hpc Hstep; right; exact W ]
+  | _ = F121 => unfold goto in Hstep; inversion Hstep; subst; now apply case_F121
+  | _ = F122 => unfold goto in Hstep; inversion Hstep; subst; now apply case_F122
+  | _ = F124 =>
+    destruct (t_val (s_thr s t)) eqn:V;
+    [ unfold goto in Hstep; inversion Hstep; subst; now apply case_F124
+    | exfalso; apply (inv_valdef s Hinv t Hlt); [now rewrite Hpc | exact V] ]
+  | _ = M951 =>
+    destruct (existsb (Z.eqb (t_id (s_thr s t))) (s_rows s)); unfold goto in Hstep; inversion Hstep; subst;
+    [ now apply case_M951_found | now apply case_M951_notfound ]
+  | _ = P153 =>
+    destruct (t_val (s_thr s t)) eqn:V;
+    [ unfold goto in Hstep; inversion Hstep; subst; now apply case_P153
+    | exfalso; apply (inv_valdef s Hinv t Hlt); [now rewrite Hpc | exact V] ]
+  | _ = Q162 =>
+    unfold release in Hstep;
+    assert (L : s_lock s = Some t) by (apply (inv_lock s Hinv t Hlt); rewrite Hpc; reflexivity);
+    rewrite L in Hstep; inversion Hstep; subst; now apply case_Q162
+  | _ = C1397 => unfold goto in Hstep; inversion Hstep; subst; now apply case_C1397
+  | _ = K181 => inversion Hstep; subst; apply case_K181; try assumption; now apply negb_true_iff
+  | _ = X1070 =>
+    destruct (o_expired (s_heap s (self_of (s_thr s t))));
+    [ unfold expire_return in Hstep; rewrite Hmex in Hstep; inversion Hstep; subst; now apply case_X1070_expired
+    | do_goto s Hinv t Hlt Hpc Hstep ]
+  | _ = X1072 =>
+    destruct (o_wlock (s_heap s (self_of (s_thr s t)))) eqn:W; [discriminate |];
+    unfold goto in Hstep; inversion Hstep; subst; now apply case_X1072
+  | _ = X1078 => unfold goto in Hstep; inversion Hstep; subst; now apply case_X1078
+  | _ = X1079 => unfold goto in Hstep; inversion Hstep; subst; now apply case_X1079
+  | _ = E237 => unfold goto in Hstep; inversion Hstep; subst; now apply case_E237
+  | _ = E239 => unfold goto in Hstep; inversion Hstep; subst; now apply case_E239
+  | _ = X1083 =>
+    destruct (self_some s t X1083 Hinv Hlt Hpc eq_refl) as (o0 & So & Eo & Ho);
+    assert (W : o_wlock (s_heap s o0) = Some t) by (apply (inv_wlock s Hinv t o0 Hlt Ho); rewrite Hpc; auto);
+    rewrite Eo in Hstep; rewrite W in Hstep; unfold expire_return in Hstep; rewrite Hmex in Hstep;
+    inversion Hstep; subst; now apply case_X1083
+  (* ---- cull *)
+  | _ = U195 => unfold goto in Hstep; inversion Hstep; subst; now apply case_U195
+  | _ = U196 =>
+    destruct (t_keys (s_thr s t)) as [| k r] eqn:Hk;
+    [ do_goto s Hinv t Hlt Hpc Hstep
+    | unfold goto in Hstep; inversion Hstep; subst; now apply case_U196_next ]
+  | _ = U197 =>
+    destruct (cull_parts s t Hinv Hlt) as (_ & _ & C & _); rewrite Hpc in C;
+    destruct (C eq_refl) as (_ & _ & C3); destruct (C3 eq_refl) as (C4 & _);
+    destruct (dget (s_weak s) (t_key (s_thr s t))) as [o |] eqn:W; [| congruence];
+    destruct (aliveb s o) eqn:A; unfold goto in Hstep; inversion Hstep; subst;
+    [ now apply case_U197_alive | eapply case_U197_dead; eauto ]
+  | _ = U198 => unfold goto in Hstep; inversion Hstep; subst; now apply case_U198
+  | _ = U200 => unfold goto in Hstep; inversion Hstep; subst; now apply case_U200
+  | _ = U201 =>
+    destruct (t_keys (s_thr s t)) as [| k r] eqn:Hk;
+    [ do_goto s Hinv t Hlt Hpc Hstep
+    | unfold goto in Hstep; inversion Hstep; subst; now apply case_U201_next ]
+  | _ = U204 =>
+    destruct (cull_parts s t Hinv Hlt) as (_ & _ & _ & D & _); rewrite Hpc in D;
+    destruct (D eq_refl) as (_ & _ & D3 & _); specialize (D3 eq_refl);
+    destruct (dget (s_strong s) (t_key (s_thr s t))) as [o |] eqn:S; [| congruence];
+    unfold goto in Hstep; inversion Hstep; subst; now apply case_U204
+  | _ = U205 => unfold goto in Hstep; inversion Hstep; subst; now apply case_U205
+  | _ = U209 =>
+    destruct (cull_parts s t Hinv Hlt) as (_ & B & _); rewrite Hpc in B;
+    destruct (B eq_refl) as (o & B1 & _); rewrite B1 in Hstep;
+    destruct (aliveb s o) eqn:A; unfold goto in Hstep; inversion Hstep; subst;
+    [ now apply case_U209_alive | eapply case_U209_dead; eauto ]
+  | _ = U210 =>
+    destruct (cull_parts s t Hinv Hlt) as (_ & B & _); rewrite Hpc in B;
+    destruct (B eq_refl) as (o & B1 & _); rewrite B1 in Hstep;
+    unfold goto in Hstep; inversion Hstep; subst; now apply case_U210
+  | _ = U216 =>
+    unfold release in Hstep;
+    assert (L : s_lock s = Some t) by (apply (inv_lock s Hinv t Hlt); rewrite Hpc; reflexivity);
+    rewrite L in Hstep; inversion Hstep; subst; now apply case_U216
+  end.
 Qed.
-
